@@ -58,7 +58,7 @@ def run(ctx) -> None:
                         x = [None if rng.random() < pm else v for v in x]
                         carrier = rng.choice(CARRIERS)
                         t = gen.regular(n, D, t0=gen.T0 + rng.choice([0, 17, 86399]))
-                        kw = {"inp": gen.arr(x) if rng.random() < 0.8 else list(x), "tinp": gen.times(t, carrier),
+                        kw = {"inp": gen.carried(rng, x, poisons=(base + 100, base + 100.25, 0.0, 1e6)), "tinp": gen.times(t, carrier),
                               "suspect_threshold": st, "fail_threshold": ft, "tolerance": tol}
                         with mon.active():
                             o, _ = client.expect(ctx, "C11", "qartod.flat_line_test", kw,
